@@ -94,7 +94,91 @@ def detect_matrix(rhs, c, vals1, reduce_sum, n):
         return None
 
 
+def handle_multi(c):
+    """one ExecComp with several statements sharing array inputs; every output's partials against the exact
+    derivative (forward-mode AD), structurally zero entries exactly zero"""
+    trees, sums, cfg, n = c['trees'], c['sums'], c['config'], c['n']
+    flat = c['points'][0]['flat']
+    vals = {G.VARS[i]: np.array(flat[str(i)], dtype=float) for i in c['vars']}
+    srcs = []
+    for j, (t, sm) in enumerate(zip(trees, sums)):
+        rhs = G.pysrc(t)
+        srcs.append('y%d = %s' % (j, ('sum(%s)' % rhs) if sm else rhs))
+    p = om.Problem()
+    ivc = p.model.add_subsystem('ivc', om.IndepVarComp())
+    kw = {}
+    for nm, v in vals.items():
+        ivc.add_output(nm, val=v.copy())
+        kw[nm] = {'val': v.copy()}
+    for j, sm in enumerate(sums):
+        kw['y%d' % j] = {'val': np.zeros(1 if sm else n)}
+    opts = {'do_coloring': False} if cfg == 'nocolor' else {}
+    comp = om.ExecComp(srcs, **opts, **kw)
+    p.model.add_subsystem('c', comp)
+    for nm in vals:
+        p.model.connect('ivc.' + nm, 'c.' + nm)
+    p.setup()
+    p.run_model()
+    ofs = ['c.y%d' % j for j in range(len(trees))]
+    J = p.compute_totals(of=ofs, wrt=['ivc.' + nm for nm in vals], return_format='dict')
+    colored = comp._coloring_info.coloring is not None
+    msgs, sig = [], ''
+
+    def env_at(k):
+        return [float(vals[G.VARS[j]][k if vals[G.VARS[j]].size > 1 else 0]) if j in c['vars'] else 0.0
+                for j in range(3)]
+
+    for j, (t, sm) in enumerate(zip(trees, sums)):
+        y = np.array(p.get_val('c.y%d' % j), dtype=float).ravel()
+        ns = dict(NPNS)
+        ns.update({nm: (v if v.size > 1 else float(v[0])) for nm, v in vals.items()})
+        rhs = G.pysrc(t)
+        ref = np.atleast_1d(np.asarray(eval(('sum(%s)' % rhs) if sm else rhs, {'__builtins__': {}}, ns),
+                                       dtype=float)).ravel()
+        if sm and ref.size == 1 and not any(vals[G.VARS[i]].size > 1 for i in G.vars_used(t)):
+            ref = ref           # sum of a scalar expression
+        if ref.size == 1 and y.size > 1:
+            ref = np.full(y.size, ref[0])
+        if y.shape != ref.shape or not np.all(np.abs(y - ref) <= 1e-10 * np.maximum(1.0, np.abs(ref))):
+            msgs.append('output y%d %r differs from NumPy evaluation %r of %s' % (j, y.tolist()[:4], ref.tolist()[:4],
+                                                                                  srcs[j]))
+            sig = sig or 'output'
+        used = G.vars_used(t)
+        nel = n if any(vals[G.VARS[i]].size > 1 for i in used) else 1      # elements the sum runs over
+        for i in c['vars']:
+            nm = G.VARS[i]
+            Ji = np.array(J['c.y%d' % j]['ivc.' + nm], dtype=float).reshape(y.size, vals[nm].size)
+            for k in range(y.size):
+                for l in range(vals[nm].size):
+                    if i not in used:
+                        want = None
+                    elif sm:
+                        if vals[nm].size > 1:
+                            want = G.ev(t, env_at(l), i, margin=False).d
+                        else:
+                            want = sum(G.ev(t, env_at(kk), i, margin=False).d for kk in range(nel))
+                    elif vals[nm].size > 1 and k != l:
+                        want = None
+                    else:
+                        want = G.ev(t, env_at(k), i, margin=False).d
+                    got = Ji[k, l]
+                    if want is None:
+                        if got != 0.0:
+                            msgs.append('d y%d[%d] / d %s[%d] = %r, must be exactly 0 (%s; config %s, colored=%s)' % (
+                                j, k, nm, l, got, ' ; '.join(srcs), cfg, colored))
+                            sig = sig or 'multi-structural-zero'
+                    elif not (abs(got - want) <= 1e-9 * max(1.0, abs(want))):
+                        msgs.append('d y%d[%d] / d %s[%d] = %r, exact derivative %r (%s; config %s, colored=%s)' % (
+                            j, k, nm, l, got, want, ' ; '.join(srcs), cfg, colored))
+                        sig = sig or 'multi-partial'
+    return {'res': '__none__', 'ok': not msgs, 'msg': '; '.join(msgs[:3]), 'sig': sig,
+            'kind': 'multi%d:%s%s%s' % (len(trees), cfg, ':colored' if colored else ':notcolored',
+                                        ':sum' if any(sums) else ''), 'src': ' ; '.join(srcs)}
+
+
 def handle(c):
+    if c.get('multi'):
+        return handle_multi(c)
     tree, cfg = c['tree'], c['config']
     names = [G.VARS[i] for i in c['vars']]
     shape = tuple(c['shape'])
